@@ -51,10 +51,37 @@ PER_PROP_ASSUMPTIONS = {
             "boxed slices are built from fixed-size arrays selected by a symbolic length (not Vec::push loops)",
             "foreign-side halves (C++ unique_ptr, finalizers) are outside; see MANIFEST level_note"],
     "C10": ["payload types are plain data; drop behaviour is C03's"],
-    "C12": ["caller-supplied grow() obeys the documented contract only: on success a fresh buffer of requested size (+0..k), old bytes copied, old buffer freed; on failure no state change",
+    "C12": ["C++ half: _flush, _grow and WriteFromString are translated statement by statement (lib/cppwriter.py, a pattern translator for the statement forms that occur; "
+            "anything else is inconclusive) from the diplomat_runtime.hpp the tool generates on this run; std::string is replaced by the model in harness/rt_main/src/cpp_string_model.rs "
+            "(resize/length/capacity/operator[] per the C++ standard, symbolic over-allocation 0..2, initial small-string capacity 0..2); 2 (quick) / 3 (thorough) ASCII chunks of 0..3 bytes",
+            "caller-supplied grow() obeys the documented contract only: on success a fresh buffer of requested size (+0..k), old bytes copied, old buffer freed; on failure no state change",
             "chunks are ASCII bytes or single encoded chars (valid UTF-8 by construction, so from_utf8_unchecked is sound)",
             "len + s.len() overflow (needs a chunk of ~2^63 bytes) and buf_size == 0 are outside the bound"],
 }
+
+
+def prepare_cpp_writer(out):
+    """C12: regenerate the C++ runtime header with the working tree's tool and translate its writer callbacks."""
+    import cppwriter
+    import engine_e2
+    d = os.path.join(CACHE, "gen", "cpp_runtime")
+    shutil.rmtree(d, ignore_errors=True)
+    os.makedirs(os.path.join(d, "src"))
+    lib = os.path.join(d, "src", "lib.rs")
+    with open(lib, "w") as fh:
+        fh.write("#[diplomat::bridge]\npub mod ffi {\n    use diplomat_runtime::DiplomatWrite;\n    #[diplomat::opaque]\n    pub struct W(u8);\n"
+                 "    impl W {\n        pub fn describe(&self, w: &mut DiplomatWrite) {}\n    }\n}\n")
+    ok, log_ = engine_e2.run_tool("cpp", lib, os.path.join(d, "cpp"))
+    hpp = os.path.join(d, "cpp", "diplomat_runtime.hpp")
+    if not ok or not os.path.exists(hpp):
+        out["inconclusive"].append("C++ half: diplomat-tool cpp failed: %s" % log_[-500:])
+        return False
+    try:
+        cppwriter.generate(hpp, os.path.join(CACHE, "gen", "cpp_writer_gen.rs"))
+    except cppwriter.Untranslatable as e:
+        out["inconclusive"].append("C++ half: the writer callbacks of the generated diplomat_runtime.hpp are outside the translator's statement forms: %s" % e)
+        return False
+    return True
 
 
 def run(prop):
@@ -63,6 +90,8 @@ def run(prop):
     prefix = prop.lower() + "_"
     out = {"results": [], "crate_of": {}, "inconclusive": [], "tools": {}, "wall": 0.0}
     ht = 3000 if tier() == "thorough" else 900
+    if prop == "C12" and prepare_cpp_writer(out):
+        feats = (feats or []) + ["cppwriter"]
     for crate, tag, serves, needs_lock in CRATES:
         if prop not in serves:
             continue
